@@ -223,6 +223,9 @@ def gen_spec(rng: random.Random, feat=None):
                 elif need or rng.random() < 0.5:
                     if feat['objects'] and rng.random() < 0.15:
                         v = gen_objdef(rng, feat, placeholders)
+                        if rng.random() < 0.35 and 'LabChainObj' not in v['class']:     # (the chain initialises only top-level ChainObject values)
+                            # parameter objects nested in a list / mapping parameter value
+                            v = rng.choice([[v, gen_objdef(rng, dict(feat, chain_objects=False), placeholders)], {'first': v, 'n': 1}, [1, v]])
                     else:
                         v = gen_value(rng, feat, 0, placeholders)
                     vals[nic] = v
